@@ -21,6 +21,10 @@ VARIABLES l,
 vars == <<l, added, tab, rq, cancelled, seen, errs, oks, sweeps, applied, early>>
 
 Dev(name) == name \in Deviations /\ TLCSet(7, TLCGet(7) \cup {name})
+\* disjunction that TLC does not enumerate as alternative successors (a plain \/ inside an action under a quantifier
+\* over 20 waiters makes 2^k identical successors)
+Or(a, b) == IF a THEN TRUE ELSE b
+Justified(w) == Or(seen[w] >= rq[w], early[w])
 Tabs == {"t", "u"}
 Ev == TraceLog[l]
 IsEvent(name) == l <= Len(TraceLog) /\ Ev.ev = name /\ l' = l + 1
@@ -50,7 +54,7 @@ TRead ==
   /\ IsEvent("read")
   /\ CASE Ev.res = "err" -> /\ cancelled[Ev.w] /\ errs[Ev.w] = 0 /\ oks[Ev.w] = 0       \* error only after the context ended, once
                             /\ errs' = [errs EXCEPT ![Ev.w] = 1] /\ oks' = oks
-       [] Ev.res = "ok"  -> /\ (seen[Ev.w] >= rq[Ev.w] \/ early[Ev.w]) /\ errs[Ev.w] = 0                  \* success only after Notify(r' >= r)
+       [] Ev.res = "ok"  -> /\ Justified(Ev.w) /\ errs[Ev.w] = 0                  \* success only after Notify(r' >= r)
                             /\ oks' = [oks EXCEPT ![Ev.w] = 1] /\ errs' = errs
        [] OTHER -> UNCHANGED <<errs, oks>>
   /\ UNCHANGED <<added, tab, rq, cancelled, seen, sweeps, applied, early>>
@@ -62,12 +66,13 @@ TObs ==
   /\ \A w \in 1..Len(Ev.avail) :
        LET a == Ev.avail[w] IN
        /\ (a = 1 => cancelled[w] /\ errs[w] = 0 /\ oks[w] = 0)        \* exactly one answer: never a second error
-       /\ (a = 2 => (seen[w] >= rq[w] \/ early[w]) /\ errs[w] = 0)     \* never success after an error, never unjustified
+       /\ (a = 2 => Justified(w) /\ errs[w] = 0)     \* never success after an error, never unjustified
        \* answered as soon as the node has applied a revision at or beyond the write's
        /\ (added[w] /\ ~cancelled[w] /\ seen[w] >= rq[w] => a = 2)
        \* ... also when that had happened before the waiter arrived.
        \* KNOWN FINDING NotifyBeforeAdd: the queue forgets notifications that precede Add
-       /\ (added[w] /\ ~cancelled[w] /\ early[w] /\ seen[w] < rq[w] => a = 2 \/ Dev("NotifyBeforeAdd"))
+       \* (IF, not a disjunction: TLC would enumerate a disjunction inside an action as alternative successors, 2^k of them)
+       /\ (added[w] /\ ~cancelled[w] /\ early[w] /\ seen[w] < rq[w] => IF a = 2 THEN TRUE ELSE Dev("NotifyBeforeAdd"))
        \* answered with an error once cancellation has passed (at the latest two sweeps later)
        /\ (added[w] /\ cancelled[w] /\ sweeps[w] >= 2 /\ errs[w] = 0 /\ oks[w] = 0 => a \in {1, 2})
   /\ UNCHANGED <<added, tab, rq, cancelled, seen, errs, oks, sweeps, applied, early>>
@@ -81,7 +86,7 @@ TFwd == /\ IsEvent("fwd") /\ ~added[Ev.w]
 \* {"ev":"fwdobs","w":w,"returned":bool,"err":""}
 TFwdObs ==
   /\ IsEvent("fwdobs")
-  /\ (Ev.returned /\ Ev.err = "" => seen[Ev.w] >= rq[Ev.w] \/ early[Ev.w])       \* acknowledged => already applied here
+  /\ (Ev.returned /\ Ev.err = "" => Justified(Ev.w))       \* acknowledged => already applied here
   /\ (~Ev.returned => ~(seen[Ev.w] >= rq[Ev.w]))                                   \* applied => answered
   /\ UNCHANGED <<added, tab, rq, cancelled, seen, errs, oks, sweeps, applied, early>>
 
